@@ -135,3 +135,180 @@ mod c01 {
     #[kani::unwind(300)]
     fn c01_write_blk_boundary_bounded() { check(255); check(256); }
 }
+
+#[cfg(kani)]
+#[path = "cbor_model.rs"]
+mod cbor_model;
+
+/// The minicbor interface the Verus units ASSUME (contracts/_minicbor_stub.inc) checked against the real minicbor 0.26:
+/// every reader/writer the wrappers under proof call is compared with the executable head model (`cbor_model.rs`, which
+/// Verus proves equal to the specification functions the stub contracts are written in).
+/// Bound: buffers of at most 11 bytes, cursor at 0, 1 or 2. The readers are loop-free and touch at most 9 bytes from the cursor.
+#[cfg(kani)]
+mod minicbor_model {
+    use super::cbor_model::{head_at_exec, head_enc_exec, type_code_exec};
+    use pallas_codec::minicbor::{self, data::{Tag, Type}};
+
+    const N: usize = 11;
+    fn input() -> ([u8; N], usize, usize) {
+        let buf: [u8; N] = kani::any();
+        let len: usize = kani::any();
+        let p: usize = kani::any();
+        kani::assume(len <= N && p <= 2 && p <= len);
+        (buf, len, p)
+    }
+    /// the unsigned argument a reader of `major` limited to `max` must return: Ok((value, next position)) or an error
+    fn expect_arg(i: &[u8], p: usize, major: u8, max: u64) -> Option<(u64, usize)> {
+        match head_at_exec(i, p) {
+            Some((m, info, v, n)) if m == major && info <= 27 && v <= max => Some((v, n)),
+            _ => None,
+        }
+    }
+
+    #[kani::proof]
+    fn stub_decoder_unsigned_readers() {
+        let (buf, len, p) = input();
+        let i = &buf[..len];
+        let which: u8 = kani::any();
+        let mut d = minicbor::Decoder::new(i);
+        d.set_position(p);
+        let (got, max): (Option<u64>, u64) = match which % 4 {
+            0 => (d.u8().ok().map(u64::from), u8::MAX as u64),
+            1 => (d.u16().ok().map(u64::from), u16::MAX as u64),
+            2 => (d.u32().ok().map(u64::from), u32::MAX as u64),
+            _ => (d.u64().ok(), u64::MAX),
+        };
+        match expect_arg(i, p, 0, max) {
+            Some((v, n)) => { assert!(got == Some(v)); assert!(d.position() == n); }
+            None => { assert!(got.is_none()); assert!(d.position() >= p); }
+        }
+    }
+
+    #[kani::proof]
+    fn stub_decoder_array_map_tag() {
+        let (buf, len, p) = input();
+        let i = &buf[..len];
+        let which: u8 = kani::any();
+        let mut d = minicbor::Decoder::new(i);
+        d.set_position(p);
+        let h = head_at_exec(i, p);
+        match which % 3 {
+            0 | 1 => {
+                let major = if which % 3 == 0 { 4 } else { 5 };
+                let got = if which % 3 == 0 { d.array() } else { d.map() };
+                match h {
+                    Some((m, 31, _, n)) if m == major => { assert!(matches!(got, Ok(None))); assert!(d.position() == n); }
+                    Some((m, info, v, n)) if m == major && info <= 27 => { assert!(matches!(got, Ok(Some(x)) if x == v)); assert!(d.position() == n); }
+                    _ => { assert!(got.is_err()); assert!(d.position() >= p); }
+                }
+            }
+            _ => {
+                let got = d.tag();
+                match h {
+                    Some((6, info, v, n)) if info <= 27 => { assert!(matches!(got, Ok(t) if t == Tag::new(v))); assert!(d.position() == n); }
+                    _ => { assert!(got.is_err()); assert!(d.position() >= p); }
+                }
+            }
+        }
+    }
+
+    #[kani::proof]
+    fn stub_decoder_datatype_null_undefined() {
+        let (buf, len, p) = input();
+        let i = &buf[..len];
+        let mut d = minicbor::Decoder::new(i);
+        d.set_position(p);
+        let dt = d.datatype();
+        let datatype_ok = p < len && (!(0x38 <= i[p] && i[p] <= 0x3b) || p + 1 < len);
+        assert!(dt.is_ok() == datatype_ok);
+        match dt {
+            Ok(t) => {
+                assert!(p < len);
+                let code = type_code_exec(i[p]);
+                let expect = match t {
+                    Type::U8 => 0, Type::U16 => 1, Type::U32 => 2, Type::U64 => 3, Type::Bytes => 4, Type::Array => 5, Type::ArrayIndef => 6,
+                    Type::Map => 7, Type::MapIndef => 8, Type::Tag => 9, Type::Null => 10, Type::Undefined => 11, Type::Break => 12, _ => 255,
+                };
+                assert!(code == expect);
+            }
+            Err(_) => {}
+        }
+        assert!(d.position() == p);
+        let which: bool = kani::any();
+        let byte = if which { 0xf6u8 } else { 0xf7u8 };
+        let got = if which { d.null() } else { d.undefined() };
+        if p < len && i[p] == byte { assert!(got.is_ok()); assert!(d.position() == p + 1); }
+        else { assert!(got.is_err()); assert!(d.position() >= p); }
+    }
+
+    #[kani::proof]
+    #[kani::unwind(13)]
+    fn stub_decoder_bytes() {
+        let (buf, len, p) = input();
+        let i = &buf[..len];
+        let mut d = minicbor::Decoder::new(i);
+        d.set_position(p);
+        let got = d.bytes();
+        match head_at_exec(i, p) {
+            Some((2, info, v, n)) if info <= 27 && v <= (len - n) as u64 => {
+                let b: &[u8] = match got { Ok(b) => b, Err(_) => { assert!(false, "complete definite byte string rejected"); return; } };
+                assert!(b.len() == v as usize);
+                let mut j = 0;
+                while j < N { if j < b.len() { assert!(b[j] == i[n + j]); } j += 1; }
+                assert!(d.position() == n + v as usize);
+            }
+            _ => { assert!(got.is_err()); assert!(d.position() >= p); }
+        }
+    }
+
+    #[kani::proof]
+    #[kani::unwind(11)]
+    fn stub_encoder_heads() {
+        let v: u64 = kani::any();
+        let which: u8 = kani::any();
+        let mut out = [0u8; 10];
+        let mut e = minicbor::Encoder::new(minicbor::encode::write::Cursor::new(&mut out[..]));
+        let (major, val): (u8, u64) = match which % 8 {
+            0 => { e.u8(v as u8).unwrap(); (0, v as u8 as u64) }
+            1 => { e.u16(v as u16).unwrap(); (0, v as u16 as u64) }
+            2 => { e.u32(v as u32).unwrap(); (0, v as u32 as u64) }
+            3 => { e.u64(v).unwrap(); (0, v) }
+            4 => { e.array(v).unwrap(); (4, v) }
+            5 => { e.map(v).unwrap(); (5, v) }
+            6 => { e.tag(Tag::new(v)).unwrap(); (6, v) }
+            _ => { let n = (v % 4) as usize; e.bytes(&[7u8; 3][..n]).unwrap(); (2, n as u64) }
+        };
+        let (model, k) = head_enc_exec(major, val);
+        let cur = e.into_writer();
+        let extra = if which % 8 == 7 { val as usize } else { 0 };
+        assert!(cur.position() == k + extra);
+        let mut j = 0;
+        while j < 9 { if j < k { assert!(cur.get_ref()[j] == model[j]); } j += 1; }
+    }
+
+    #[kani::proof]
+    fn stub_encoder_markers() {
+        let which: u8 = kani::any();
+        let mut out = [0u8; 2];
+        let mut e = minicbor::Encoder::new(minicbor::encode::write::Cursor::new(&mut out[..]));
+        let byte = match which % 5 {
+            0 => { e.begin_array().unwrap(); 0x9fu8 }
+            1 => { e.begin_map().unwrap(); 0xbf }
+            2 => { e.end().unwrap(); 0xff }
+            3 => { e.null().unwrap(); 0xf6 }
+            _ => { e.undefined().unwrap(); 0xf7 }
+        };
+        let cur = e.into_writer();
+        assert!(cur.position() == 1 && cur.get_ref()[0] == byte);
+    }
+
+    /// the model is self-consistent: reading back a written head yields the same (major, value) — executed, not assumed
+    #[kani::proof]
+    fn model_head_roundtrip() {
+        let v: u64 = kani::any();
+        let major: u8 = kani::any();
+        kani::assume(major < 8);
+        let (o, k) = head_enc_exec(major, v);
+        assert!(matches!(head_at_exec(&o[..k], 0), Some((m, info, x, n)) if m == major && info <= 27 && x == v && n == k));
+    }
+}
